@@ -85,6 +85,21 @@ class C06(C04):
                                {"at": 200, "op": "run", "mark": 1, "yield": True}]
                         extra.append({"id": 0, "script": {"children": [dict(child), dict(child)], "spawn_fail": [], "signal_fail": [], "kill_fail": []},
                                       "ops": ops, "waiters": 1, "tail": 1000})
+        # controls of the high and urgent lanes arriving in the middle of the grace period (the normal lane is held): the deadline stays
+        # where it was -- the kill comes at signal time + grace, not later
+        for name in ("stop_with_signal", "restart_with_signal", "try_restart_with_signal"):
+            for grace in (60, 100):
+                for child in CHILD_CLASSES:
+                    for mids in ([("to_wait", 0.5)], [("to_wait", 0.3), ("to_wait", 0.8)], [("to_wait", 0.2), ("to_wait", 0.5), ("to_wait", 0.9)], [("to_wait", 0.5), ("run", 0.6)]):
+                        ops = [{"at": 0, "op": "start", "yield": True}, {"at": 20, "op": name, "sig": "Terminate", "grace": grace, "yield": True}]
+                        for k, (m, frac) in enumerate(mids):
+                            op = {"at": 20 + int(grace * frac), "op": m, "yield": True}
+                            if m == "run":
+                                op["mark"] = k + 1
+                            ops.append(op)
+                        ops.append({"at": 20 + grace + 150, "op": "run", "mark": 9, "yield": True})
+                        extra.append({"id": 0, "script": {"children": [dict(child), dict(child)], "spawn_fail": [], "signal_fail": [], "kill_fail": []},
+                                      "ops": ops, "waiters": 1, "tail": 1000})
         return job_check(self, "thorough" if deep else tier, seed, monitor, extra)
 
 
